@@ -121,12 +121,9 @@ class PathNode(ConfigList):
             if self.ayns.source_file is None:
                 raise ValueError('!path node with :parent reference requires to know source file of the node, but the node is missing this information')
             src = pathlib.Path(self.ayns.source_file)
-            if ref_point_args >= len(src.parents):
-                diff = ref_point_args - len(src.parents) + 1
-                ref_point_args = len(src.parents) - 1
-                args = ['..'] * diff + args
-
-            ret = src.parents[ref_point_args].joinpath(*args)
+            # go up lexically: the '..' components are resolved by normpath below, which (unlike Path.parents)
+            # also works for relative file names that are short or contain '..' themselves
+            ret = src.joinpath(*(['..'] * (ref_point_args + 1)), *args)
         elif ref_point == 'abs':
             ret = pathlib.Path(ref_point_args).joinpath(*args)
         else:
